@@ -8,17 +8,24 @@ Spec:   ListenerHttpReq.tla (requirement machine: per request class the
         delivery of valid indications), ListenerHttpImplOps.tla (do_POST and
         the other verbs transcribed stage by stage, with the suspected defects
         as switches), ListenerHttp.tla (sequences of requests against handler
-        threads, indication queue, peers that keep a waiting connection open),
-        ListenerHttpTrace.tla.
+        threads, a bounded indication queue, a callback the tester may hold,
+        peers that keep a waiting connection open), ListenerHttpTrace.tla.
 TLC:    all 294 912 request classes through the repaired pipeline, all
-        sequences of 3 (4) requests over a reduced alphabet; five regression
-        configurations (the tree as read, and a non-threaded server) must fail.
+        sequences of 3 (4) requests over a reduced alphabet; bounded queue
+        (capacity 1; thorough also 2) with a held callback: all histories of
+        4 (5) requests, TLC prints the tester scripts that force the
+        queue.Full branch; six regression configurations (the tree as read,
+        a non-threaded server, a missing `return` after the queue-full
+        answer) must fail.
 Binding: a real WBEMListener on a loopback port; raw bytes written with the
         socket module, answers read with an own minimal HTTP reader; request
         classes enumerated by TLC (<= 2 deviations from the valid request),
         TLC-simulated and seeded random histories, seeded byte-level mutants
-        inside the classes; every history ends with a valid indication.  Each
-        recorded event (request class, observation) is judged by TLC.
+        inside the classes; the TLC-emitted tester scripts (requests, hold /
+        release the callback, give up on a waiting connection) on listeners
+        with max_ind_queue_size 1 / 2; every history ends with a valid
+        indication.  Each recorded event (request class, environment,
+        observation) is judged by TLC.
 """
 import base64
 import random
@@ -49,9 +56,9 @@ QUEUE_SCRIPTS_QUICK = 200
 
 
 def model_checks(ctx, quick):
-    r = ctx.tlc("ListenerHttp", "ListenerHttp.cfg", coverage=False,
-                label="every request class (294 912) through the repaired "
-                "pipeline: every clause of the requirement holds")
+    ctx.tlc("ListenerHttp", "ListenerHttp.cfg", coverage=False,
+            label="every request class (294 912) through the repaired "
+            "pipeline: every clause of the requirement holds")
     ctx.extra["request_classes_model_checked"] = 294912
     if quick:
         ctx.tlc("ListenerHttp", "ListenerHttpSeqQuick.cfg",
@@ -139,9 +146,9 @@ def random_class(rng, p):
 def plan_queue(ctx, quick, scripts):
     """TLC-emitted tester scripts (request classes, block, release) that force
     the queue.Full branch in the model -> histories on a listener with that
-    max_ind_queue_size.  Quick tier: a seeded sample, two thirds of it from
-    the scripts without a request that makes the server wait (those fill the
-    queue of the real listener deterministically)."""
+    max_ind_queue_size.  Quick tier: at most QUEUE_SCRIPTS_QUICK of them
+    (seeded sample, two thirds of it from the scripts without a request that
+    makes the server wait)."""
     scripts = sorted(scripts)
     if quick and len(scripts) > QUEUE_SCRIPTS_QUICK:
         plain = [x for x in scripts
